@@ -43,6 +43,11 @@ impl TscTimestamp {
     /// Reads the timestamp counter.
     #[inline(always)]
     pub fn start() -> Self {
+        #[cfg(divan_verif)]
+        if let Some(value) = ::dsim::clock::read_start() {
+            return Self { value };
+        }
+
         #[allow(unused)]
         let value = 0;
 
@@ -58,6 +63,11 @@ impl TscTimestamp {
     /// Reads the timestamp counter.
     #[inline(always)]
     pub fn end() -> Self {
+        #[cfg(divan_verif)]
+        if let Some(value) = ::dsim::clock::read_end() {
+            return Self { value };
+        }
+
         #[allow(unused)]
         let value = 0;
 
